@@ -409,6 +409,10 @@ def _mass_job(kw):
             continue
         n += 1
         q = next(iter(quarks))
+        tagged = {"charm": 4, "bottom": 5, "top": 6}.get(kw["obs"].split("_")[-1])
+        if tagged is not None and q != tagged:
+            bad.append(f"{coeff.cinfo.fq} in the flavour-tagged observable {kw['obs']} is built for the {MASS[q][1]} quark (weights {sorted(str(k) for k in partons)[:3]}): "
+                       f"the kernels of a tagged observable belong to the tagged quark")
         if masses != {MASS[q]}:
             bad.append(f"{coeff.cinfo.fq} built for the {MASS[q][1]} quark (weights {sorted(str(k) for k in partons)[:3]}...) carries the mass symbol(s) {sorted(masses)}")
     # light-quark initiated kernels: one per quark that is massive in the scheme and heavier than the active ones, each with that quark's mass
